@@ -6,12 +6,13 @@ type srec = { extra : bool; hm : hmod; imports : (n list * n list option) list }
 
 let parse_feat s =
   match split ':' s with
-  | [h; e] -> { f_name = unhex h; f_en = (e = "1") }
+  | [h; e] | [h; e; _] -> { f_name = unhex h; f_en = (e = "1") }     (* the if-feature dependency is not modelled *)
   | _ -> failwith "feat"
 
 let parse_group g = if g = "" then [] else List.map parse_feat (split '+' g)
 
 let parse_import s =
+  let s = (match String.index_opt s '^' with Some i -> String.sub s 0 i | None -> s) in
   match split '@' s with
   | [n] -> (unhex n, None)
   | [n; r] -> (unhex n, Some (unhex r))
@@ -58,6 +59,18 @@ let show_entries (y : yl) : string =
   String.concat "|" (ms @ is)
 let rec drop k l = if k = 0 then l else match l with [] -> [] | _ :: r -> drop (k - 1) r
 
+(* P:idx:features *)
+let parse_fspec = function
+  | "~" -> F_keep
+  | "*" -> F_all
+  | "-" -> F_list []
+  | l -> F_list (List.map unhex (split '+' l))
+let is_pre f = String.length f > 2 && String.sub f 0 2 = "P:"
+let parse_pre (rs : srec list) (f : string) =
+  match split ':' f with
+  | [_; i; fs] -> let r = List.nth rs (int_of_string i) in ((r.hm.h_name, r.hm.h_rev), parse_fspec fs)
+  | _ -> failwith "pre"
+
 let show_hash = function None -> "MODEL-FUEL" | Some h -> dec_of_n h
 
 let run (f : string list) : string =
@@ -70,12 +83,14 @@ let run (f : string list) : string =
         let a, b = split_slash [] rest in
         let h l = show_hash (modhash (in_ctx (List.map parse_rec l))) in
         h a ^ " " ^ h b
-    | "ylrt" :: _opts :: recs ->
+    | "ylrt" :: _opts :: rest ->
+        let pres = List.filter is_pre rest and recs = List.filter (fun f -> not (is_pre f)) rest in
         let rs = List.map parse_rec recs in
         let src = List.map ymod_of rs in
         let a = initial_ctx @ List.map ymod_of (List.filter (fun r -> not r.extra) rs) in
         let y = describe [] a in
-        (match rebuild y src initial_ctx with
+        let c0 = preload src initial_ctx (List.map (parse_pre rs) pres) in
+        (match rebuild y src c0 with
          | Ok b -> show_entries y ^ " 0 0 " ^ show_records (drop (List.length initial_ctx) (ctx_obs b))
          | Err e -> show_entries y ^ " 0 E" ^ dec_of_n e ^ " -")
     | "ccwrap" :: start :: ns ->
